@@ -31,19 +31,22 @@ type epObs struct {
 }
 
 type c37obs struct {
-	Kind      string  `json:"kind"` // "c37"
-	Policy    string  `json:"policy"`
-	Mode      int     `json:"mode"`
-	KeyBits   int     `json:"keybits"`         // client key
-	SKeyBits  int     `json:"skeybits"`        // server key
-	Token     int     `json:"token"`           // 0 anonymous 1 username
-	Extra     string  `json:"extra,omitempty"` // pairs the server enables before the pair under test: "Pol/mode+Pol/mode"
-	Endpoints []epObs `json:"endpoints"`
-	EpFound   bool    `json:"ep_found"`
-	TokAdv    bool    `json:"tok_advertised"` // the selected endpoint lists a token policy of the requested type
-	Stage     string  `json:"stage"`          // how far it got: endpoints|select|newclient|connect|read|write|readback|ok
-	OK        bool    `json:"ok"`
-	Err       string  `json:"err,omitempty"`
+	Kind      string   `json:"kind"` // "c37"
+	Policy    string   `json:"policy"`
+	Mode      int      `json:"mode"`
+	KeyBits   int      `json:"keybits"`         // client key
+	SKeyBits  int      `json:"skeybits"`        // server key
+	Token     int      `json:"token"`           // 0 anonymous 1 username
+	Pairs     []string `json:"pairs,omitempty"` // sequence scenario: everything the long-lived server enables, in order
+	Seq       int      `json:"seq,omitempty"`   // sequence scenario: position of the cell in the sequence
+	Held      int      `json:"held,omitempty"`  // sequence scenario: clients of earlier cells still connected
+	Extra     string   `json:"extra,omitempty"` // pairs the server enables before the pair under test: "Pol/mode+Pol/mode"
+	Endpoints []epObs  `json:"endpoints"`
+	EpFound   bool     `json:"ep_found"`
+	TokAdv    bool     `json:"tok_advertised"` // the selected endpoint lists a token policy of the requested type
+	Stage     string   `json:"stage"`          // how far it got: endpoints|select|newclient|connect|read|write|readback|ok
+	OK        bool     `json:"ok"`
+	Err       string   `json:"err,omitempty"`
 	// nonces the real asymmetric algorithm (client side and server side) produces for this configuration
 	AsymOK      bool `json:"asym_ok"`
 	ClientNonce int  `json:"client_nonce"`
